@@ -156,6 +156,7 @@ func c12ExactlyOneIn(c *Ctx, add *ssa.Function) {
 		return ok && one == 1
 	}
 	var lower, upper, bound *ssa.BinOp
+	lowerIn, upperIn := true, true // which outcome of the comparison means "inside this bucket's bound"
 	eachInstr(scanFn, func(i ssa.Instruction) {
 		bo, ok := i.(*ssa.BinOp)
 		if !ok {
@@ -163,9 +164,13 @@ func c12ExactlyOneIn(c *Ctx, add *ssa.Function) {
 		}
 		switch {
 		case bo.Op == token.GEQ && isLat(bo.X) && isBucketAt(bo.Y, phi, false), bo.Op == token.LEQ && isLat(bo.Y) && isBucketAt(bo.X, phi, false):
-			lower = bo
+			lower, lowerIn = bo, true
+		case bo.Op == token.LSS && isLat(bo.X) && isBucketAt(bo.Y, phi, false), bo.Op == token.GTR && isLat(bo.Y) && isBucketAt(bo.X, phi, false):
+			lower, lowerIn = bo, false // negated: true means "below this bucket"
 		case bo.Op == token.LSS && isLat(bo.X) && isBucketAt(bo.Y, phi, true), bo.Op == token.GTR && isLat(bo.Y) && isBucketAt(bo.X, phi, true):
-			upper = bo
+			upper, upperIn = bo, true
+		case bo.Op == token.GEQ && isLat(bo.X) && isBucketAt(bo.Y, phi, true), bo.Op == token.LEQ && isLat(bo.Y) && isBucketAt(bo.X, phi, true):
+			upper, upperIn = bo, false // negated: true means "at or above the next bound"
 		case bo.Op == token.LSS && bo.X == ssa.Value(phi):
 			if sub, ok := bo.Y.(*ssa.BinOp); ok && sub.Op == token.SUB && lenOf(sub.X, isBucketsVal) {
 				if one, ok := constInt(sub.Y); ok && one == 1 {
@@ -186,7 +191,19 @@ func c12ExactlyOneIn(c *Ctx, add *ssa.Function) {
 		return
 	}
 	// control: the count block is reached from the loop (a) via bound false, or (b) via lower true && upper true; every other outcome increments i and loops.
-	ifB, ifL, ifU := trueImpliesIf(bound), trueImpliesIf(lower), trueImpliesIf(upper)
+	ifB, ifL, ifU := trueImpliesIf(bound), implIf(lower, lowerIn, 0), implIf(upper, upperIn, 0)
+	if ifL == nil {
+		ifL = implIf(lower, !lowerIn, 0)
+	}
+	if ifU == nil {
+		ifU = implIf(upper, !upperIn, 0)
+	}
+	sideOf := func(ifi *ssa.If, in bool) (inSucc, outSucc *ssa.BasicBlock) {
+		if in {
+			return ifi.Block().Succs[0], ifi.Block().Succs[1]
+		}
+		return ifi.Block().Succs[1], ifi.Block().Succs[0]
+	}
 	okP := ifB != nil && ifL != nil && ifU != nil
 	why2 := "the comparisons do not control the scan"
 	if okP {
@@ -206,16 +223,18 @@ func c12ExactlyOneIn(c *Ctx, add *ssa.Function) {
 			okP, why2 = false, "running out of bounds does not fall through to the last (overflow) bucket"
 		}
 		// lower true → evaluates upper; upper true → exit; lower false/upper false → continue (back to header through i+1)
-		if ifL.Block().Succs[0] != upper.Block() {
+		lIn, lOut := sideOf(ifL, lowerIn)
+		uIn, uOut := sideOf(ifU, upperIn)
+		if lIn != upper.Block() {
 			okP, why2 = false, "the upper bound is not tested on the `Latency >= Buckets[i]` edge"
 		}
-		if !exit(ifU.Block().Succs[0]) {
+		if !exit(uIn) {
 			okP, why2 = false, "a latency inside [Buckets[i], Buckets[i+1]) does not stop the scan at i"
 		}
-		if exit(ifL.Block().Succs[1]) || exit(ifU.Block().Succs[1]) {
+		if exit(lOut) || exit(uOut) {
 			okP, why2 = false, "the scan stops at a bucket that does not contain the latency"
 		}
-		if ifL.Block().Succs[1] != ifU.Block().Succs[1] {
+		if lOut != uOut {
 			okP, why2 = false, "the two 'not this bucket' outcomes do not both advance to the next bucket"
 		}
 		// body entered on bound true
